@@ -1,6 +1,7 @@
 package checks
 
 import (
+	"encoding/json"
 	"fmt"
 	"os"
 	"path/filepath"
@@ -361,6 +362,41 @@ func C17(tier string) {
 			continue
 		}
 		progs = append(progs, diffProgram{Name: fmt.Sprintf("gen%02d", p), Dir: dir, BaseYAML: ChainCfg{Name: "base", Rewrites: true}.YAML(), OrigDir: dir, Files: files, Batch: b})
+	}
+	// a program whose functions and interface methods have dataflow specifications, some of them given twice
+	// (two specification files defining the same keys with different flows)
+	{
+		var cases []specCase
+		idx := 1
+		for _, form := range []string{"direct", "method", "invoke", "funcval"} {
+			for _, bits := range []uint64{0x1b5, 0x0ff, 0x155} {
+				args, rets := matrixFromBits(bits, 2, 2)
+				cases = append(cases, specCase{A: 2, R: 2, Args: args, Rets: rets, Form: form, Body: "all", Bits: bits, Idx: idx})
+				idx++
+			}
+		}
+		files, specs := renderSpecProgram(cases)
+		// second file: same keys, every flow list emptied
+		var parsed []map[string]any
+		_ = json.Unmarshal([]byte(specs), &parsed)
+		for _, c := range parsed {
+			if ms, ok := c["Methods"].(map[string]any); ok {
+				for _, m := range ms {
+					if mm, ok := m.(map[string]any); ok {
+						mm["Args"] = [][]int{{}, {}}
+						mm["Rets"] = [][]int{{0}, {}}
+					}
+				}
+			}
+		}
+		specs2, _ := json.MarshalIndent(parsed, "", " ")
+		dir := filepath.Join(run.Scratch, "specs")
+		if err := gen.WriteProgram(dir, files); err == nil {
+			_ = os.WriteFile(filepath.Join(dir, "specs.json"), []byte(specs), 0o644)
+			_ = os.WriteFile(filepath.Join(dir, "specs2.json"), specs2, 0o644)
+			y := ChainCfg{Name: "base", Rewrites: true, TopLevel: "dataflow-specs:\n  - \"specs.json\"\n  - \"specs2.json\"\n"}.YAML()
+			progs = append(progs, diffProgram{Name: "specs-twice", Dir: dir, BaseYAML: y, OrigDir: dir, Files: files})
+		}
 	}
 	reals := realTaintPrograms("taint")
 	if tier != "thorough" {
